@@ -35,7 +35,10 @@ package federation
 // a representation without a string __typename is reported once and belongs to no group. (Entries are appended
 // once per loop index, so indices are pairwise distinct across all groups.)
 //@ family fedrepgroups [C20]
+//@   ghost orig = representations
 //@   at! `append(repsMap[typeName], EntityWithIndex{...` requires arg1.index == idx1 && arg1.entity == rep && rep == representations[idx1]
+// ... and that position is the one in the REQUEST (the list handed in), whatever is done to the local slice
+//@   at! `append(repsMap[typeName], EntityWithIndex{...` requires len(orig) == len(representations) && rep == orig[idx1]
 //@   loop 1: invariant calls(Error) <= idx1
 //@   ensures calls(Error) <= len(representations)
 
